@@ -7,7 +7,7 @@
 //   ents() forward/backward and seeks by lower bound) this is the block-level statement of C10.
 // ASSUMED: the entry codec -- enc(entry) is self-delimiting and decodes to the entry wherever it stands (derive-generated
 // KeyValueEntry pack/unpack; C15 covers derive round trips); stack_pack(entry).append_to_vec appends enc(entry);
-// seal() = Block::new(buffer ++ footer(restarts)) with the restart table readable as little-endian u32s.
+// seal() appends footer(restarts) (layout written out below); Block::new is extracted and proved to find the table in it.
 use vstd::prelude::*;
 use std::cmp::Ordering;
 verus! {
@@ -196,15 +196,72 @@ fn pack_entry(be: KeyValueEntry<'_>) -> (r: PackedEntry)
 //@ end
 
 uninterp spec fn vec_of(s: Seq<u8>) -> Vec<u8>;
-uninterp spec fn footer(rs: Seq<u32>) -> Seq<u8>;
-uninterp spec fn footer_tab(rs: Seq<u32>) -> int;
-// ASSUMED: what seal() appends (tag, length, the restart offsets as little-endian u32s, tag, their count) is at most
-// 16 bytes longer than the table and Block::new finds the table where it was written
+// the footer seal() appends: tag 10 (length-delimited), the byte length of the table as a varint, the restart offsets as
+// little-endian u32s, tag 11 (fixed32), the number of restart points as a little-endian u32
+uninterp spec fn varint(x: int) -> Seq<u8>;
+// ASSUMED: a varint is 1..=10 bytes long
 #[verifier::external_body]
+proof fn axiom_varint_len(x: int)
+    ensures 1 <= varint(x).len() <= 10
+{ }
+spec fn le32b(x: int) -> Seq<u8> { seq![(x % 256) as u8, ((x / 256) % 256) as u8, ((x / 65536) % 256) as u8, ((x / 16777216) % 256) as u8] }
+spec fn table(rs: Seq<u32>) -> Seq<u8>
+    decreases rs.len()
+{
+    if rs.len() == 0 { Seq::<u8>::empty() } else { table(rs.drop_last()) + le32b(rs.last() as int) }
+}
+spec fn footer(rs: Seq<u32>) -> Seq<u8> { seq![82u8] + varint(4 * (rs.len() as int)) + table(rs) + seq![93u8] + le32b(rs.len() as int) }
+spec fn footer_tab(rs: Seq<u32>) -> int { 1 + varint(4 * (rs.len() as int)).len() as int }
+proof fn lemma_le32b(x: int)
+    requires 0 <= x < 0x1_0000_0000
+    ensures le32b(x).len() == 4, le32(le32b(x), 0) == x
+{
+    let a = x % 256; let b = (x / 256) % 256; let c = (x / 65536) % 256; let d = (x / 16777216) % 256;
+    assert(x == a + 256 * b + 65536 * c + 16777216 * d) by (nonlinear_arith)
+        requires 0 <= x < 0x1_0000_0000, a == x % 256, b == (x / 256) % 256, c == (x / 65536) % 256, d == (x / 16777216) % 256;
+}
+proof fn lemma_table(rs: Seq<u32>, r: int)
+    requires 0 <= r < rs.len()
+    ensures table(rs).len() == 4 * rs.len(), table(rs).subrange(4 * r, 4 * r + 4) == le32b(rs[r] as int)
+    decreases rs.len()
+{
+    lemma_table_len(rs);
+    lemma_table_len(rs.drop_last());
+    if r == rs.len() - 1 {
+        assert(table(rs).subrange(4 * r, 4 * r + 4) =~= le32b(rs.last() as int));
+    } else {
+        lemma_table(rs.drop_last(), r);
+        assert(table(rs).subrange(4 * r, 4 * r + 4) =~= table(rs.drop_last()).subrange(4 * r, 4 * r + 4));
+    }
+}
+proof fn lemma_table_len(rs: Seq<u32>)
+    ensures table(rs).len() == 4 * rs.len()
+    decreases rs.len()
+{
+    if rs.len() > 0 { lemma_table_len(rs.drop_last()); }
+}
+// (formerly assumed) where the table sits in the footer and what a little-endian load finds there
 proof fn axiom_footer(rs: Seq<u32>)
     ensures 0 <= footer_tab(rs), footer_tab(rs) + 4 * rs.len() <= footer(rs).len() <= 4 * rs.len() + 16,
+        footer(rs).len() == footer_tab(rs) + 4 * rs.len() + 5,
         forall|r: int| 0 <= r < rs.len() ==> le32(footer(rs), footer_tab(rs) + 4 * r) == #[trigger] rs[r] as int,
-{ }
+{
+    axiom_varint_len(4 * (rs.len() as int));
+    lemma_table_len(rs);
+    let f = footer(rs); let t = footer_tab(rs);
+    assert forall|r: int| 0 <= r < rs.len() implies le32(f, t + 4 * r) == #[trigger] rs[r] as int by {
+        lemma_table(rs, r);
+        lemma_le32b(rs[r] as int);
+        let w = le32b(rs[r] as int);
+        assert(f.subrange(t + 4 * r, t + 4 * r + 4) =~= table(rs).subrange(4 * r, 4 * r + 4));
+        assert(f[t + 4 * r] == w[0] && f[t + 4 * r + 1] == w[1] && f[t + 4 * r + 2] == w[2] && f[t + 4 * r + 3] == w[3]) by {
+            assert(f.subrange(t + 4 * r, t + 4 * r + 4)[0] == w[0]);
+            assert(f.subrange(t + 4 * r, t + 4 * r + 4)[1] == w[1]);
+            assert(f.subrange(t + 4 * r, t + 4 * r + 4)[2] == w[2]);
+            assert(f.subrange(t + 4 * r, t + 4 * r + 4)[3] == w[3]);
+        }
+    }
+}
 #[verifier::external_body]
 proof fn axiom_vec_of(s: Seq<u8>)
     ensures vec_of(s)@ == s
@@ -230,6 +287,65 @@ proof fn lemma_sealed(buffer: Seq<u8>, rs: Seq<u32>)
         assert(b.bytes@[buffer.len() + i + 2] == footer(rs)[i + 2]);
         assert(b.bytes@[buffer.len() + i + 3] == footer(rs)[i + 3]);
     }
+}
+
+//@ extract sst/src/lib.rs | fn block_too_small
+//@ external-body
+//@ optional
+//@ end
+spec fn sealed_bytes(bs: Seq<u8>, buffer: Seq<u8>, rs: Seq<u32>) -> bool { bs == buffer + footer(rs) && 1 <= rs.len() < 0x1000_0000 }
+// the fixed32 decoder applied to the last four bytes (little-endian u32); may fail
+#[verifier::external_body]
+fn read_le32_at(bytes: &Vec<u8>, off: usize) -> (r: Result<u32, SError>)
+    requires off + 4 <= bytes@.len(),
+    ensures r is Ok ==> r->Ok_0 as int == le32(bytes@, off as int),
+{ unimplemented!() }
+// `v64::from(n).pack_sz()`
+#[verifier::external_body]
+fn varint_len(n: usize) -> (r: usize)
+    ensures r == varint(n as int).len(),
+{ unimplemented!() }
+
+impl Block {
+    // Block::new on the bytes a builder sealed: the restart table is found where the footer put it.  (On bytes that are
+    // NOT buffer ++ footer the subtractions may underflow: Block::new is only called on CRC-checked bytes.)
+//@ extract sst/src/block.rs | impl Block :: fn new
+//@ ret r
+//@ rewrite X7 `let bytes = Arc::new(bytes);` => ``
+//@ rewrite-re X7 `let mut up = Unpacker::new\(&bytes\[bytes\.len\(\) - 4\.\.\]\);\s*let num_restarts: u32 = up\s*\.unpack\(\)\s*\.map_err\(\|e: buffertk::SError\| unpack_block_restarts\(e\)\)\?;` => `let num_restarts: u32 = read_le32_at(&bytes, bytes.len() - 4)?;`
+//@ rewrite X7 `v64::from(footer_body).pack_sz()` => `varint_len(footer_body)`
+//@ pre <<
+        exists|buffer: Seq<u8>, rs: Seq<u32>| #[trigger] sealed_bytes(bytes@, buffer, rs),
+        bytes@.len() <= 0x4000_0000,
+//@ >>
+//@ post <<
+        r is Ok ==> r->Ok_0.bytes@ == bytes@ && forall|buffer: Seq<u8>, rs: Seq<u32>| #[trigger] sealed_bytes(bytes@, buffer, rs) ==>
+            r->Ok_0.restarts_boundary == buffer.len() && r->Ok_0.restarts_idx == buffer.len() + footer_tab(rs) && r->Ok_0.num_restarts == rs.len(),
+//@ >>
+//@ bodystart <<
+        let ghost bs = bytes@;
+        proof {
+            assert forall|buffer: Seq<u8>, rs: Seq<u32>| #[trigger] sealed_bytes(bs, buffer, rs) implies
+                bs.len() == buffer.len() + footer_tab(rs) + 4 * rs.len() + 5 && le32(bs, bs.len() - 4) == rs.len() by {
+                axiom_footer(rs);
+                let f = footer(rs); let n = rs.len() as int;
+                lemma_le32b(n);
+                let w = le32b(n);
+                assert(f.subrange(f.len() - 4, f.len() as int) =~= w);
+                assert(bs[bs.len() - 4] == w[0] && bs[bs.len() - 3] == w[1] && bs[bs.len() - 2] == w[2] && bs[bs.len() - 1] == w[3]) by {
+                    assert(f.subrange(f.len() - 4, f.len() as int)[0] == f[f.len() - 4]);
+                    assert(f.subrange(f.len() - 4, f.len() as int)[1] == f[f.len() - 3]);
+                    assert(f.subrange(f.len() - 4, f.len() as int)[2] == f[f.len() - 2]);
+                    assert(f.subrange(f.len() - 4, f.len() as int)[3] == f[f.len() - 1]);
+                    assert(bs[buffer.len() + f.len() - 4] == f[f.len() - 4]);
+                    assert(bs[buffer.len() + f.len() - 3] == f[f.len() - 3]);
+                    assert(bs[buffer.len() + f.len() - 2] == f[f.len() - 2]);
+                    assert(bs[buffer.len() + f.len() - 1] == f[f.len() - 1]);
+                }
+            }
+        }
+//@ >>
+//@ end
 }
 
 proof fn lemma_sub_agree(a: Seq<u8>, b: Seq<u8>, n: int, lo: int, hi: int)
@@ -701,7 +817,8 @@ impl BlockBuilder {
 //@ >>
 //@ end
 
-    // ASSUMED: seal() appends the footer (prototk packing of the restart table) and Block::new locates it
+    // ASSUMED: seal() appends footer(restarts) (the prototk packing chain tag10 / length / fixed32s / tag11 / count) and
+    // hands the bytes to Block::new -- whose offset arithmetic IS proved above for exactly such bytes
 //@ extract sst/src/block.rs | impl Builder for BlockBuilder :: fn seal
 //@ ret r
 //@ pre <<
